@@ -258,33 +258,35 @@ class Prop:
                  "RpcChannel / RpcServer over socketpairs against the model + independent specification on the implementation's trace")
     level_text = ("Kernel-checked theorems (Props/C19.lean) for every list of the model's atomic steps - any number of CallMethod calls "
                   "split into id fetch / insert / send and interleaved arbitrarily with each other and with the loop thread, messages "
-                  "of every type with any id and any payload/error combination, deferred done-callbacks fired at any time, both build "
-                  "flavours: ids_unique (ids pairwise distinct and positive, one REQUEST frame per call, a wire id names one call); "
-                  "complete_at_most_once; complete_with_own_response (a closure runs only for the RESPONSE that arrived last before it, "
-                  "that message carries the call's id, the closure sees its parsed payload); complete_once_partial (a RESPONSE arriving "
-                  "after the call's frame left => the closure has run exactly once or the loop thread is completing it; the first such "
-                  "response supplies the payload) and response_completes_partial (state form, also for an inserted call whose frame has "
-                  "not left yet: exact log, erase, one run, one free) - both for NDEBUG or a message with payload or error; "
-                  "no_foreign_completion (unknown / consumed id: only the arrival is logged, outstandings_ unchanged); "
-                  "no_double_free_no_use_after_free and destroy_frees_once (response object freed exactly once per registered call, "
-                  "nothing touches it afterwards); outstanding_exact (+ no duplicate keys) and registered_accounted; one_reply, "
-                  "at_most_one_reply, requests_numbered, expected_spec (every handled REQUEST: at most one RESPONSE, exactly one unless "
-                  "the service still holds the done-callback, with the request's id, being the service's answer or NO_SERVICE / "
-                  "NO_METHOD / INVALID_REQUEST; service called once iff the request is valid; no callback used after it ran, under the "
-                  "named hypothesis ServiceDoneOnce); server_channels (every RpcServer channel is such a channel, one per connection, "
-                  "isolated); halts_only_on_bare_response, bare_response_aborts, f1_witness, complete_once_full_false (finding C19-F1). "
-                  "The id source, lock scopes, erase, run/free counts, the request decision tree and reply ids are re-extracted from "
-                  "/repo's AST on every run; the hand-written steps are tied to the real classes by a differential run with a scripted "
-                  "raw peer and real concurrent callers")
+                  "of every type with any id and any payload/error combination (including neither), deferred done-callbacks fired at "
+                  "any time, both build flavours: ids_unique (ids pairwise distinct and positive, one REQUEST frame per call, a wire id "
+                  "names one call); complete_at_most_once; complete_with_own_response (a closure runs only for the RESPONSE that "
+                  "arrived last before it, that message carries the call's id, the closure sees its parsed payload); complete_once "
+                  "(full strength: a RESPONSE arriving after the call's frame left => the closure has run exactly once or the loop "
+                  "thread is completing it; the first such response supplies the payload) and response_completes (state form, also for "
+                  "an inserted call whose frame has not left yet: exact log, erase, one run, one free); bare_response_completes and "
+                  "never_halts, assert_removed (the repaired finding C19-F1: a RESPONSE with neither payload nor error completes its "
+                  "call once with an untouched response object, nothing in the channel aborts on peer input); no_foreign_completion "
+                  "(unknown / consumed id: only the arrival is logged, outstandings_ unchanged); no_double_free_no_use_after_free and "
+                  "destroy_frees_once (response object freed exactly once per registered call, nothing touches it afterwards); "
+                  "outstanding_exact (+ no duplicate keys) and registered_accounted; one_reply, at_most_one_reply, requests_numbered, "
+                  "expected_spec (every handled REQUEST: at most one RESPONSE, exactly one unless the service still holds the "
+                  "done-callback, with the request's id, being the service's answer or NO_SERVICE / NO_METHOD / INVALID_REQUEST; service "
+                  "called once iff the request is valid; no callback used after it ran, under the named hypothesis ServiceDoneOnce); "
+                  "server_channels (every RpcServer channel is such a channel, one per connection, isolated); f1_witness_passes. "
+                  "The id source, lock scopes, the assertion of the RESPONSE branch (none), erase, run/free counts, the request decision "
+                  "tree and reply ids are re-extracted from /repo's AST on every run; the hand-written steps are tied to the real "
+                  "classes by a differential run with a scripted raw peer and real concurrent callers")
     level_note = ("Trusted: Lean kernel (propext, Classical.choice, Quot.sound), vlib/gen/rpc.py, the hand-written part of "
                   "Model/Rpc.lean as far as the differential run exercises it, protobuf, std::map, the harness. Framing (RpcCodec) "
                   "is property C18 and treated as transparent here. Thread interleavings inside CallMethod are proved on the model "
                   "(critical sections as atomic steps); on the implementation they are exercised by free-running joined threads (ids "
                   "on the wire must be distinct). 'Exactly once' is a safety statement on traces: it says the closure has run or the "
                   "loop thread stands between its critical section and the completion (pending), not that the loop thread is "
-                  "scheduled. The full statement complete_once_full is false in builds with assert (C19-F1, negation witness "
-                  "complete_once_full_false on corpus/C19/F1-bare-response-asserts.case); in the model a second invocation of a "
-                  "done-callback is a use-after-free event, excluded by the hypothesis ServiceDoneOnce of one_reply.")
+                  "scheduled. Finding C19-F1 (assert on peer-controlled input) is repaired in /repo; with the assert back, "
+                  "assert_removed and f1_witness_passes no longer compile and the corpus witness F1-bare-response-asserts.case aborts. "
+                  "In the model a second invocation of a done-callback is a use-after-free event, excluded by the hypothesis "
+                  "ServiceDoneOnce of one_reply.")
     rule = ("histories over 2-4 channels (client channels and RpcServer-created server channels): calls from the loop thread and "
             "from 2-4 concurrent threads; peer responses for outstanding, answered (duplicate), never-issued and guessed ids with "
             "payload / unparsable payload / error / both / neither; requests for existing and missing services and methods, "
@@ -300,19 +302,12 @@ class Prop:
     assumptions = [
         "ServiceDoneOnce (named hypothesis of one_reply): the service invokes a done-callback only while it holds it - at most once, and never one it was not given",
         "the caller passes a non-null response object and closure (protobuf RpcChannel::CallMethod contract)",
-        "complete_once_partial speaks about a RESPONSE that arrives after the call's REQUEST frame left (hypothesis `sent m.id k` before `arrived m` in the log); response_completes_partial covers answers that arrive between insert and send; at-most-once and own-response need nothing",
+        "complete_once speaks about a RESPONSE that arrives after the call's REQUEST frame left (hypothesis `sent m.id k` before `arrived m` in the log); response_completes covers answers that arrive between insert and send; at-most-once and own-response need nothing",
         "the id counter does not wrap (2^63 calls)",
         "framing is transparent: whole RpcMessages in, whole RpcMessages out (C18)",
         "~RpcChannel runs on the loop thread between two messages (destroy_frees_once: pending = none)",
     ]
-    partial_theorems = [
-        {"theorem": "MuduoVerif.C19.complete_once_partial",
-         "hypothesis": "asserts = false (NDEBUG build) or the RESPONSE has a payload or an error (Msg.wellFormed) - a hypothesis on that one message only",
-         "finding": "C19-F1: debug-only assert on peer-controlled input aborts the process (RpcChannel.cc:89); negation witness complete_once_full_false"},
-        {"theorem": "MuduoVerif.C19.response_completes_partial",
-         "hypothesis": "asserts = false (NDEBUG build) or the RESPONSE has a payload or an error (Msg.wellFormed)",
-         "finding": "C19-F1 (general form of the defect: bare_response_aborts)"},
-    ]
+    partial_theorems = []
 
     def signature(self, case, kind, desc):
         return kind
@@ -329,7 +324,7 @@ class Prop:
         deferred = [[] for _ in range(nch)]
         nextp = [1000]
         alive = [True] * nch
-        allow_bare = flavour not in ASSERT_FLAVOURS or rng.random() < 0.04
+        allow_bare = True      # since the fix of C19-F1 a bare RESPONSE is an answer like any other, in every flavour
 
         def payload():
             nextp[0] += 1
